@@ -124,16 +124,21 @@ def _parse_xml_string(xml_string, parser, charset=None):
 
 # see http://www.w3.org/TR/2000/NOTE-SOAP-20000508/
 # section 5.2.1 for an example of how the id and href attributes are used.
-def resolve_hrefs(element, xmlids):
+def resolve_hrefs(element, xmlids, _active=()):
     for e in element:
         if e.get('id'):
             continue # don't need to resolve this element
 
         elif e.get('href'):
-            resolved_element = xmlids[e.get('href').replace('#', '')]
+            href = e.get('href').replace('#', '')
+            resolved_element = xmlids.get(href, None)
             if resolved_element is None:
-                continue
-            resolve_hrefs(resolved_element, xmlids)
+                raise Fault('Client.SoapError',
+                             'href %r does not refer to an element' % (href,))
+            if href in _active:
+                raise Fault('Client.SoapError',
+                                    'href %r refers to itself' % (href,))
+            resolve_hrefs(resolved_element, xmlids, _active + (href,))
 
             # copies the attributes
             [e.set(k, v) for k, v in resolved_element.items()]
@@ -145,7 +150,7 @@ def resolve_hrefs(element, xmlids):
             e.text = resolved_element.text
 
         else:
-            resolve_hrefs(e, xmlids)
+            resolve_hrefs(e, xmlids, _active)
 
     return element
 
